@@ -1,26 +1,40 @@
 """C13 - Genotype data become the spectrum and statistics that direct counting gives
 
-Status: bounded run-time contracts only (props/bounded_C13.py) until the proof obligations of DESIGN.md 7 C13 are added.
+Contracts (contracts/py_wiring.py c13_*): count_data_dict classification per SNP, Spectrum._from_count_dict = sum of count * outer product of
+hypergeometric projections (polarized filter / fold), fragment_data_dict partition and chunk windows for every chunk size in a stated range,
+bootstraps_from_dd_chunks = sums of drawn fragment spectra, S/pi/Watterson/theta_L/Tajima_D closed forms, S() mask frame.
+The VCF / SNP-file parsers, subsampling and Fst stay with the bounded drivers (props/bounded_C13.py).
 """
 from vf.helpers import bounded_tasks
 
 META = dict(
-    level='exploration',
-    expects_obligations=False,
-    explanation='Run-time contracts on the real functions over the bounded domain stated per driver (bounded stand-in; nothing proved).',
+    level='other',
+    explanation='Wiring and closed-form contracts of the counting / projection / chunking / statistics functions discharged from their AST by z3 and the ring normaliser; the text parsers, subsampling and Fst are run-time contracts over the bounded domain stated per driver (never counted as proved).',
     trusted_base=['oracles of props/bounded_C13.py (independent of dadi: exact rationals, mpmath, dense linear algebra, explicit index loops)'],
     rule='cases enumerated or sampled as stated in each driver\'s bound; a case is non-trivial unless the driver marks it degenerate; distinct by its key',
 )
 
 
 def tasks(tier):
-    return bounded_tasks('C13', tier)
+    from vf.core import Task
+    W = lambda name, fname, **kw: Task('props.wire:run', name='C13/wire.' + name, fname=fname, kwargs=kw, timeout=400)
+    ts = [W('count_data_dict', 'c13_count_data_dict'),
+          W('from_count_dict.1D', 'c13_from_count_dict', npop=1),
+          W('from_count_dict.2D', 'c13_from_count_dict', npop=2),
+          W('fragment_data_dict', 'c13_fragment_data_dict'),
+          W('bootstraps_from_chunks', 'c13_bootstraps_from_chunks'),
+          W('S_frame', 'c13_S_frame'),
+          W('statistics.n4', 'c13_statistics', n=4),
+          W('statistics.n7', 'c13_statistics', n=7)]
+    if tier == 'thorough':
+        ts += [W('statistics.n%d' % n, 'c13_statistics', n=n) for n in (3, 10, 16)]
+    return ts + bounded_tasks('C13', tier)
 
 
 MANIFEST_ENTRY = dict(
-    category='exploration',
+    category='other',
     engine='bounded',
-    technique='bounded run-time contracts on the real functions with independent oracles (stand-in for the contract proofs, never counted as proved)',
+    technique='sidecar contracts on the real functions: wiring / closed-form obligations from the AST discharged by z3 and the ring normaliser where the functions are within reach; bounded run-time contracts with independent oracles for the rest (never counted as proved)',
     text='Synthetic VCF/SNP data against direct counting with exact hypergeometric projection, chunk partition, bootstraps, subsampling, statistics.',
     note='bounded: see coverage.bounded.drivers[].bound in the evidence file for the exact domain of every driver',
 )
